@@ -23,12 +23,12 @@ for prop in $props; do
         echo "=== $prop-$n NOT confirmed"; tail -6 /tmp/confirm-$prop-$n.json; continue
       fi
     fi
-    python3 /verif/tools/seeded.py try $d/patch.diff $prop all > $d/check-results.json 2>&1
+    python3 /verif/tools/seeded.py try $d/patch.diff $prop ${SCOPE:-all} > $d/${OUTNAME:-check-results.json} 2>&1
     python3 - "$d" "$prop-$tag$n" <<'PY'
 import json,sys
 d,name=sys.argv[1],sys.argv[2]
 try:
-    r=json.load(open(d+"/check-results.json"))
+    r=json.load(open(d+"/"+__import__("os").environ.get("OUTNAME","check-results.json")))
     own=r["own"]
     print(f"=== {name}: own exit {own['exit']} {[c[:170] for c in own['clauses']][:2]}")
     print("    others:", {k:[c[7:90] for c in v['clauses']][:1] or v.get('harness') for k,v in r.get('others_alarmed',{}).items()})
